@@ -88,7 +88,7 @@ def run(rep):
                 ljs = [dict(x, strict=False) for x in lj] if (lname == 'spill' or (lname.startswith('parquet') and not rows)) else lj  # empty Parquet table under a join: C04's subject  # the join spill path may refuse outer joins explicitly
                 units.append({'db': db, 'stmts': ss + (ljs if lname != 'mem-6batches' else []), 'layout': lname})
     # high-cardinality family: > 65,536 groups opens the parallel raw-key merge paths (row gates are reached with real rows, no hook)
-    ngroups = 66000
+    ngroups = 70000     # ~105,000 rows: above the 100,000-row gate of the morsel-parallel hash aggregation and the 65,536 raw-group limits
     for vt in (['float64', 'int64'] if quick else ['float64', 'int64', 'utf8']):
         x, y = VAL[vt][1], VAL[vt][2]
         big = []
@@ -122,7 +122,7 @@ def run(rep):
             us.append(dict(u, config='default'))
     rep.rule = ('all multisets of <= 3 rows over (g,v) in {NULL,x,y}^2 for typings %s; every aggregate set of size <= %d from COUNT(*)/COUNT/SUM/AVG/MIN/MAX/COUNT(DISTINCT), '
                 'global / GROUP BY g / WHERE-emptied / filtered-to-NULL-key / above a LEFT JOIN; layouts memory 1 batch, memory 6 batches (rows x2), Parquet row-group-per-row '
-                '(QE_MORSEL default and 0), memory limit 1 byte (spill path); plus one 66,000-group table (NULL-only, mixed and non-NULL groups) per value type in 8 memory batches and as Parquet; oracle SQLite; Execution errors are violations'
+                '(QE_MORSEL default and 0), memory limit 1 byte (spill path); plus one 70,000-group table (NULL-only, mixed and non-NULL groups) per value type in 8 memory batches and as Parquet; oracle SQLite; Execution errors are violations'
                 % (typings, 1 if quick else 2))
     rep.extra['tables'] = ntables
     sqldiff.run(rep, us, configs, chunk=8, timeout=120)
